@@ -461,5 +461,5 @@ func decodeValueMsg(msg *protoscan.Message) (interface{}, error) {
 // Check if data is GZipped by reading the "magic bytes"
 // Rarely this method can result in false positives
 func dataIsGZipped(data []byte) bool {
-	return (data[0] == 0x1F && data[1] == 0x8B)
+	return len(data) >= 2 && data[0] == 0x1F && data[1] == 0x8B
 }
